@@ -18,7 +18,10 @@ reg("C12", "exploration", [P("tex", "all")])
 reg("C15", "exploration", [P("solids", "all")])
 reg("C17", "exploration", [P("curve", "spline")])
 reg("C18", "exploration", [P("curve", "angle")])
-reg("C09", "exploration", [P("xform", "algebra")])
+reg("C09", "exploration", [P("xform", "algebra"),
+    # rotation constructors again in the float configurations whose sqrt/sin/cos are not std's
+    P("fpcfg", "xform", package="fpcfg", features="cfg_libm", name="xform-cfg-libm"),
+    P("fpcfg", "xform", package="fpcfg", features="cfg_mm", name="xform-cfg-mm")])
 reg("C08", "exploration", [P("xform", "proj")])
 reg("C04", "exploration", [P("rast", "cover")])
 reg("C05", "exploration", [P("rast", "interp")])
